@@ -12,6 +12,10 @@ KINDS = {"UnView": 0, "ApplyMask": 1, "GetItem": 2, "Transpose": 3, "SwapAxes": 
          "SetItem": 9, "Subtract": 10, "Negative": 11, "Square": 12, "Divide": 13, "MoveAxis": 14, "Sum": 15, "Tensor_Transpose_Property": 16}
 
 
+class GenError(Exception):
+    pass
+
+
 def canon(roots):
     """HeapCorr.canon on the real objects.  Holds no reference once it returns."""
     order, index, keep = [], {}, []
@@ -66,12 +70,12 @@ def canon(roots):
             ops_all = [f for f in ops_all if f is not None]
             ops = sorted(num("O", f) for f in ops_all if key("O", f) in index)
             stray += len(ch_all) - len(ch) + len(ops_all) - len(ops)
-            out.append([0, onum("O", o._creator), onum("T", o._base), num("A", o.data), int(o._grad is not None), int(o._view_grad is not None), len(ch)] + ch + ops)
+            out.append([0, onum("O", o._creator), onum("T", o._base), num("A", o.data), int(o._grad is not None), 0, len(ch)] + ch + ops)
             del ch_all, ops_all
         elif kind == "O":
             name = type(o).__name__
             if name not in KINDS:
-                raise RuntimeError("operation class %s is not in the table" % name)
+                raise GenError("operation class %s is not in the table" % name)
             vs = [num("T", v) for v in o.variables]
             ks = [num("T", fn.__wrapped__.__self__) for fn in o._view_fn_seq] if isinstance(o, UnView) else []
             out.append([1, KINDS[name], len(vs)] + vs + ks)
@@ -139,9 +143,9 @@ def run_stmt(names, s):
         elif f == "reshape":
             v = p.reshape(tuple(s["shape"]))
         else:
-            raise RuntimeError(f)
+            raise GenError(f)
         if v.base is None:
-            raise RuntimeError("generator error: %s did not produce a view" % f)
+            raise GenError("generator error: %s did not produce a view" % f)
         names.append(v)
         del v, p
     elif k == "inplace":
@@ -171,12 +175,14 @@ def run_stmt(names, s):
             mask.flat[:1] = False
             mg.multiply(xs[0], xs[1], out=m, where=mask)
         else:
-            raise RuntimeError(f)
+            raise GenError(f)
         del m, xs
     elif k == "clear":
         names[s["t"]].clear_graph()
+    elif k == "backward":
+        names[s["t"]].backward()
     else:
-        raise RuntimeError(k)
+        raise GenError(k)
 
 
 def run_case(stmts):
@@ -186,11 +192,15 @@ def run_case(stmts):
         raised = None
         try:
             run_stmt(names, s)
-        except RuntimeError:
+        except GenError:
             raise
         except Exception as e:
             raised = exn_class(e)
             del e
+            if s["s"] == "backward":
+                # InvalidBackprop (a stale graph) is the subject of C09, not of the pointer-level model: the compared history ends here
+                obs.append({"truncated": True, "raised": raised})
+                break
         c, stray = canon(names)
         obs.append({"raised": raised, "canon": c, "stray": stray})
     del names
